@@ -360,12 +360,26 @@ func (r *seqRun) cell(t Term) (string, bool) {
 		return r.cell(x.X)
 	case TIndex:
 		if r.opnd != nil && r.opnd(x.X) {
+			if ks := r.keySym(x.I); strings.HasPrefix(ks, "$k[") {
+				return "$s[" + ks[3:], true // the operand map looked up under one of its own keys
+			}
 			i, ok := r.int(x.I)
 			if ok && (i < 0 || int(i) >= r.opndLen) {
 				r.panic = "index out of range on the operand"
 				return "", false
 			}
 			return "$s[" + itoa(int(i)) + "]", ok
+		}
+		if id, isMap := r.mapOf(x.X); isMap {
+			st := r.at(x.Epoch)
+			m, ok := st.maps[id]
+			if !ok {
+				m = r.cur.maps[id]
+			}
+			if c, ok := m.vals[r.keySym(x.I)]; ok {
+				return c, true
+			}
+			return "nil", true // absent key: the zero field
 		}
 		if tv, ok := x.X.(TVar); ok {
 			if _, isVals := r.nVals[tv.Obj]; isVals {
@@ -915,6 +929,26 @@ func (r *seqRun) loop(l *LoopRec) bool {
 				entries, valPfx = r.cur.spine["recv"].len, "e"
 			} else if id, ok := r.cur.mspine["recv"]; ok {
 				entries, keyPfx, valPfx = len(r.cur.maps[id].keys), "k", "e"
+			}
+		}
+		if entries < 0 {
+			// any other list known to the model (the one being built): its elements as they are when the loop starts
+			if b, ct := r.v.spineOf(l.Over); ct != nil && ct.IsList && r.containerKey(b) != "" {
+				if hdr, ok := r.spineOfContainer(b, -1); ok {
+					cells := r.cells(r.cur, hdr)
+					for j := range cells {
+						if l.Key != nil {
+							r.ints[l.Key] = int64(j)
+						}
+						if l.Value != nil {
+							r.bind[l.Value] = cells[j]
+						}
+						if !iterate() {
+							return false
+						}
+					}
+					return true
+				}
 			}
 		}
 		if entries >= 0 {
